@@ -250,6 +250,40 @@ def recall_check(prop, sc, fname, **kw):
     return None
 
 
+def _decimal_trains(sc):
+    """trains on a DECIMAL grid with t_start != 0, derived deterministically from the scenario (same number of trains,
+    similar lengths): spike k ↦ the double nearest to (s10 + k)/10 with distinct k strictly inside the edges (multiples of
+    0.1, almost none exactly representable; many exact ties |dt| = window in the reals). Used only for clauses that
+    compare two outputs of the implementation with each other, bit for bit — exact real arithmetic cannot be the
+    reference there."""
+    import random as _r
+    rr = _r.Random(repr(sc['trains']))
+    K = 8 + 2 * max([len(s_) for s_, _, _ in sc['trains']] + [1])
+    s10 = rr.choice([-3, -20, 1, 7, -73, 1007])          # t_start in tenths; every time is the double NEAREST to a decimal
+    g = lambda k: float(Fr(s10 + k, 10))
+    out = []
+    for s_, _, _ in sc['trains']:
+        ks = sorted(rr.sample(range(1, K), min(len(s_), K - 1)))
+        out.append(SpikeTrain(np.array([g(k) for k in ks], dtype=float), [g(0), g(K)]))
+    return out
+
+
+def decimal_axis_check(prop, sc):
+    """the SPIKE profile lives on the breakpoints of the ISI profile: the two time axes are the same numbers, and they
+    are the spike times / edges themselves (not recomputed from them)"""
+    if 'own0' in sc or 'dup' in sc or 'forms' in sc or len(sc['trains']) < 2:
+        return None
+    D = _decimal_trains(sc)
+    pi = quiet(spk.isi_profile, D[0], D[1])
+    ps = quiet(spk.spike_profile, D[0], D[1], **kwargs_of(sc, 'spike'))
+    if list(pi.x) != list(ps.x):
+        return '%s on decimal times (t_start != 0): the SPIKE profile\'s time axis %s is not the ISI profile\'s %s' % (prop, list(ps.x), list(pi.x))
+    inner = set(D[0].spikes) | set(D[1].spikes) | {D[0].t_start, D[0].t_end}
+    if any(x not in inner for x in ps.x):
+        return '%s on decimal times: a breakpoint of the SPIKE profile is not one of the spike times / edges' % prop
+    return None
+
+
 def o_C01(sc):
     (s1, ts, te), (s2, _, _) = sc['trains'][:2]
     m = Fr(sc['kw'].get('mrts') or 0)
@@ -290,6 +324,9 @@ def o_C02(sc):
         em = spike_def_at(s1, s2, ts, te, m, ri, mid, +1)
         if not feq(quiet(p, float(mid)), em):
             return 'C02 at t=%s: impl %r expected %s' % (mid, quiet(p, float(mid)), float(em))
+    r_ = decimal_axis_check('C02', sc)
+    if r_:
+        return r_
     return recall_check('C02', sc, 'spike_profile', **kwargs_of(sc, 'spike'))
 
 
@@ -331,6 +368,9 @@ def o_C03(sc):
     kept = [float(a) for a, c in zip(s1, c1) if c]
     if list(f[0].spikes) != kept:
         return 'C03 per-spike indicator (filter) %s expected %s' % (list(f[0].spikes), kept)
+    r_ = decimal_filter_check('C03', sc)
+    if r_:
+        return r_
     return recall_check('C03', sc, 'spike_sync_profile', **mt_of(sc), **kwargs_of(sc))
 
 
@@ -975,6 +1015,9 @@ def o_C16(sc):
         return 'C16 enlarging max_tau from %s to %s removes a coincidence' % (t1, t2)
     if np.any(np.abs(pn.y) < np.abs(p2.y)):
         return 'C16 unbounded window has fewer coincidences than max_tau=%s' % t2
+    r_ = decimal_filter_check('C16', sc)
+    if r_:
+        return r_
     # max_tau handed over as a numpy scalar object (0-d array), re-used for several calls: it is an
     # argument like any other — never modified, and every call sees the same bound
     mobj = np.array(float(t1))
@@ -1010,8 +1053,27 @@ def o_C17_alias(sc):
     return None
 
 
+def decimal_filter_check(prop, sc):
+    """two trains on a decimal grid with t_start != 0, threshold 0: the filter keeps exactly the spikes the bivariate
+    profile marks (value 1 at multiplicity 1, or a shared time). Both routes evaluate the same comparisons on the same
+    numbers, so they agree bit for bit — also at exact ties |dt| = window."""
+    if 'own0' in sc or 'dup' in sc or 'forms' in sc or len(sc['trains']) < 2 or sc['kw'].get('mrts') == 'auto':
+        return None
+    D = _decimal_trains(sc)[:2]
+    for mt in (None, 0.1, 0.2, 0.4):
+        k = {} if mt is None else {'max_tau': mt}
+        p = quiet(spk.spike_sync_profile, D[0], D[1], **k)
+        marked = {float(x) for x, y, mp in list(zip(p.x, p.y, p.mp))[1:-1] if y > 0}
+        f = quiet(spk.filter_by_spike_sync, [D[0], D[1]], 0.0, **k)
+        for t_, kept in zip(D, f):
+            exp_ = [float(x) for x in t_.spikes if float(x) in marked]
+            if list(kept.spikes) != exp_:
+                return '%s on decimal times (max_tau=%s): the filter keeps %s of train %s, the profile marks %s' % (prop, mt, list(kept.spikes), list(t_.spikes), exp_)
+    return None
+
+
 def o_C17(sc):
-    r_ = o_C17_alias(sc)
+    r_ = o_C17_alias(sc) or decimal_filter_check('C17', sc)
     if r_:
         return r_
     L = mkl(sc)
